@@ -603,6 +603,15 @@ theorem cb_pushed_windows_have_buckets (p : CBLibPolicy) (h : p.accepted = true)
 /-- non-vacuity: the default policy and the boundary policy (1, 0, 0) are accepted -/
 example : (CBLibPolicy.ofJ (.obj [])).accepted = true ∧ (⟨1, 0, 0⟩ : CBLibPolicy).accepted = true := by decide
 
+/-- `ServerPool.handle` panics with "should not reach here" when a resilience wrapper hands it an error that is
+neither `ErrShortCircuited` nor the handler's own `serverPoolError`. Regenerated fact: every `return` of the closure
+`RetryPolicy.Wrap` builds returns `nil` or `err`, and a variable named `err` is only ever bound to `handler(ctx)` —
+in particular a context that ends during the back-off wait returns the handler's last error, not `ctx.Err()`. -/
+theorem retry_wrap_only_passes_handler_error :
+    Gen.FactsC13IR.extractionFailed = false ∧
+    Gen.FactsC13IR.retryWrapReturns = ["nil", "err", "err"] ∧
+    Gen.FactsC13IR.retryWrapErrSources = ["handler(ctx)"] := by decide
+
 open EgVerif.Gen.FactsC13IR in
 /-- HTTPServer: the tracer `mux.reload` stores into the new instance is non-nil for every combination of old /
 new tracing sections and every outcome of `tracing.New` (selection statements translated; `tracing.New` returns
@@ -716,12 +725,13 @@ theorem guard_table_partition :
     (∀ s ∈ Gen.FactsC13.panicSites, (guardedSites.contains s || allowedSites.contains s || notCoveredSites.contains s) = true) ∧
     (∀ s ∈ guardedSites, (allowedSites.contains s || notCoveredSites.contains s) = false) ∧
     (∀ s ∈ allowedSites, notCoveredSites.contains s = false) ∧
-    (guardedSites.length, allowedSites.length, notCoveredSites.length) = (11, 18, 23) := by decide
+    (guardedSites.length, allowedSites.length, notCoveredSites.length) = (12, 17, 23) := by decide
 
 /-- **the guarded list, site by site** (only for these a theorem relates validation to the site):
 Builder.reload ← `validate_no_panic_Builder` (both sides regenerated);
 ResponseAdaptor.Init ← `validate_no_panic_ResponseAdaptor` (both sides regenerated);
 Signer.Verify ← `validate_no_panic_Validator` (both sides regenerated + wiring fact);
+ServerPool.handle ("should not reach here") ← `retry_wrap_only_passes_handler_error` (regenerated fact on the returns of `RetryPolicy.Wrap`);
 newBroker ← `validate_no_panic_MQTTProxy` (both sides regenerated);
 Header.initHeaderRoute ← `valid_implies_init_ok_HTTPServer`, StringMatcher.init / StringMatch.Init / URLRule.Init
 ← `smValid_init` / `matcherOK_init` / `poolOK_init` (hand-written model; `MustCompile` of a string the
@@ -733,6 +743,7 @@ theorem guarded_sites_listed :
     guardedSites =
       [("pkg/filters/builder/builder.go", "Builder.reload", 1),
        ("pkg/filters/proxy/pool.go", "ServerPool.InjectResiliencePolicy", 4),
+       ("pkg/filters/proxy/pool.go", "ServerPool.handle", 1),
        ("pkg/filters/proxy/requestmatch.go", "StringMatcher.init", 1),
        ("pkg/filters/requestadaptor/requestadaptor.go", "RequestAdaptor.Init", 4),
        ("pkg/filters/responseadaptor/responseadaptor.go", "ResponseAdaptor.Init", 4),
